@@ -486,4 +486,209 @@ theorem Stream_unpack_outcomes (buf : Bytes) :
   all_goals first
     | (simp; done)
     | (rename_i e h; have := structUnpackFrom_error _ _ _ _ h; subst this; simp)
+/-! ### packet-level outcome list for `MPEGPacketPMT.unpack` (review B4) -/
+
+/-- the descriptor loop raises nothing but `struct.error` -/
+theorem decDescs_error_struct (fuel : Nat) (buf : Bytes) (e : Err) (hf : buf.length < fuel)
+    (h : decDescs fuel buf = .error e) : e = .struct := by
+  induction fuel generalizing buf with
+  | zero => omega
+  | succ fuel ih =>
+    unfold decDescs at h
+    split at h
+    · cases hd : Desc.unpack buf with
+      | error e' =>
+        simp only [hd, Except.error.injEq] at h
+        subst h
+        rcases Desc_unpack_outcomes buf with ⟨r, hr⟩ | hs
+        · rw [hd] at hr; cases hr
+        · rw [hd] at hs; cases hs; rfl
+      | ok r =>
+        obtain ⟨d, rest⟩ := r
+        simp only [hd] at h
+        have hs := Desc_unpack_shorter buf rest d hd
+        cases hr : decDescs fuel rest with
+        | ok ds => simp only [hr] at h; cases h
+        | error e' =>
+          simp only [hr, Except.error.injEq] at h
+          subst h
+          exact ih rest (by omega) hr
+    · cases h
+
+/-- the stream loop cannot fail at all: its condition `len(stream_buf) > CRC_LEN` leaves at least the five bytes a stream
+    header needs -/
+theorem decStreams_total (fuel : Nat) (buf : Bytes) (hf : buf.length < fuel) : ∃ r, decStreams fuel buf = .ok r := by
+  induction fuel generalizing buf with
+  | zero => omega
+  | succ fuel ih =>
+    unfold decStreams
+    by_cases hlt : Acra.Gen.PMT.PMT_CRC_LEN < buf.length
+    · rw [if_pos hlt]
+      simp only [Acra.Gen.PMT.PMT_CRC_LEN] at hlt
+      have hh : ∃ a b c, structUnpackFrom Acra.Gen.PMT.PMTStream_FMT buf 0 = .ok [a, b, c] := by
+        simp only [structUnpackFrom, Acra.Gen.PMT.PMTStream_FMT, Fmt.size, codesSize, Code.size, unpackCodes]
+        have : 0 + (1 + (2 + (2 + 0))) ≤ buf.length := by omega
+        simp only [this, if_true]
+        exact ⟨_, _, _, rfl⟩
+      obtain ⟨a, b, c, hh⟩ := hh
+      have hd : ∃ d rest, Stream.unpack buf = .ok (d, rest) := by
+        simp only [Stream.unpack, hh]
+        exact ⟨_, _, rfl⟩
+      obtain ⟨d, rest, hd⟩ := hd
+      have hs := Stream_unpack_shorter buf rest d hd
+      obtain ⟨r, hr⟩ := ih rest (by omega)
+      obtain ⟨ss, left⟩ := r
+      simp only [hd, hr]
+      exact ⟨_, rfl⟩
+    · rw [if_neg hlt]
+      exact ⟨_, rfl⟩
+
+/-- past the transport-packet layer only `struct.error` and `IndexError` are possible -/
+theorem PMT_unpack_after_pkt (t : PMT) (buf : Bytes) (h : (Pkt.unpack t.pkt buf).2 = .ok ()) :
+    (∃ b, (PMT.unpack t buf).2 = .ok b) ∨ (PMT.unpack t buf).2 = .error .struct ∨
+    (PMT.unpack t buf).2 = .error .index := by
+  simp only [PMT.unpack]
+  cases hu : Pkt.unpack t.pkt buf with
+  | mk p r =>
+    rw [hu] at h
+    simp only at h
+    subst h
+    simp only
+    repeat' split
+    all_goals first
+      | (simp; done)
+      | (rename_i e h; have := structUnpackFrom_error _ _ _ _ h; subst this; simp)
+      | (rename_i e h; have := structUnpack_error _ _ _ h; subst this; simp)
+      | (rename_i e h
+         obtain ⟨r, hr⟩ := decStreams_total _ _ (Nat.lt_succ_self _)
+         rw [hr] at h; cases h)
+      | (rename_i e h
+         split at h
+         · have := decDescs_error_struct _ _ _ (by omega) h
+           subst this; simp
+         · simp at h)
+
+/-- the outcome list: a Boolean (False = CRC mismatch), `struct.error`, a bare `Exception`, or `IndexError` —
+    nothing else; the bare `Exception` comes from the transport-packet layer and only from there (sync byte ≠ 0x47) -/
+theorem PMT_unpack_outcomes (t : PMT) (buf : Bytes) :
+    ((∃ b, (PMT.unpack t buf).2 = .ok b) ∨ (PMT.unpack t buf).2 = .error .struct ∨
+      (PMT.unpack t buf).2 = .error .generic ∨ (PMT.unpack t buf).2 = .error .index) ∧
+    ((PMT.unpack t buf).2 = .error .generic ↔ (Pkt.unpack t.pkt buf).2 = .error .generic) := by
+  have hp := Pkt_unpack_outcomes t.pkt buf
+  have ha := PMT_unpack_after_pkt t buf
+  simp only [okOrSG] at hp
+  cases hu : Pkt.unpack t.pkt buf with
+  | mk p r =>
+    rw [hu] at hp ha
+    cases r with
+    | error e =>
+      have hr : (PMT.unpack t buf).2 = .error e := by simp only [PMT.unpack, hu]
+      rw [hr]
+      simp only [reduceCtorEq, exists_false, false_or, Except.error.injEq] at hp ⊢
+      refine ⟨?_, ?_⟩
+      · rcases hp with rfl | rfl <;> simp
+      · first | trivial | exact Iff.rfl
+    | ok u =>
+      cases u
+      rcases ha rfl with ⟨b, hb⟩ | hs | hi
+      · rw [hb]; exact ⟨Or.inl ⟨b, rfl⟩, by simp⟩
+      · rw [hs]; exact ⟨Or.inr (Or.inl rfl), by simp⟩
+      · rw [hi]; exact ⟨Or.inr (Or.inr (Or.inr rfl)), by simp⟩
+
+/-- the pointer byte and the 12-bit section length of a PMT payload (bytes 0 and `pointer + 2 .. pointer + 3`) -/
+def pmtPointer (pl : Bytes) : Nat := decInt true (pl.take 1)
+def pmtSectionLength (pl : Bytes) : Nat := decInt true (((pl.drop (1 + pmtPointer pl)).drop 1).take 2) % 4096
+
+/-- `IndexError` (raised by the debug line that reads `crc_buffer[0]`) occurs only when the transport packet was
+    accepted, the pointer byte and the 12 header bytes after it are there, and the section length field is 0 or 1 —
+    the CRC-protected region `payload[pointer+1 : pointer+section_length]` is then empty -/
+theorem PMT_unpack_index_imp (t : PMT) (buf : Bytes) (h : (PMT.unpack t buf).2 = .error .index) :
+    (Pkt.unpack t.pkt buf).2 = .ok () ∧
+    13 + pmtPointer (Pkt.unpack t.pkt buf).1.payload ≤ (Pkt.unpack t.pkt buf).1.payload.length ∧
+    pmtSectionLength (Pkt.unpack t.pkt buf).1.payload ≤ 1 := by
+  have hp := Pkt_unpack_outcomes t.pkt buf
+  simp only [okOrSG] at hp
+  revert h
+  simp only [PMT.unpack]
+  cases hu : Pkt.unpack t.pkt buf with
+  | mk p r =>
+    rw [hu] at hp
+    cases r with
+    | error e =>
+      simp only [reduceCtorEq, exists_false, false_or, Except.error.injEq] at hp ⊢
+      rcases hp with rfl | rfl <;> simp
+    | ok u =>
+      cases u
+      simp only [true_and]
+      by_cases h1 : 1 ≤ p.payload.length
+      · have hh1 : structUnpackFrom Acra.Gen.PMT.PMT_FMT_POINTER p.payload 0 = .ok [pmtPointer p.payload] := by
+          simp only [structUnpackFrom, Acra.Gen.PMT.PMT_FMT_POINTER, Fmt.size, codesSize, Code.size, unpackCodes,
+            pmtPointer, List.drop_zero]
+          have : 0 + (1 + 0) ≤ p.payload.length := by omega
+          simp only [this, if_true]
+        simp only [hh1]
+        generalize hptr : pmtPointer p.payload = ptr
+        by_cases h13 : 13 + ptr ≤ p.payload.length
+        · have hh2 : ∃ a c d f g i j, structUnpackFrom Acra.Gen.PMT.PMT_FMT p.payload (Acra.Gen.PMT.PMT_FMT_POINTER.size + ptr) =
+              .ok [a, decInt true (((p.payload.drop (1 + ptr)).drop 1).take 2), c, d, f, g, i, j] := by
+            simp only [structUnpackFrom, Acra.Gen.PMT.PMT_FMT, Acra.Gen.PMT.PMT_FMT_POINTER, Fmt.size, codesSize, Code.size,
+              unpackCodes]
+            have : 1 + 0 + ptr + (1 + (2 + (2 + (1 + (1 + (1 + (2 + (2 + 0)))))))) ≤ p.payload.length := by omega
+            simp only [this, if_true]
+            have : 1 + 0 + ptr = 1 + ptr := by omega
+            rw [this]
+            exact ⟨_, _, _, _, _, _, _, rfl⟩
+          obtain ⟨a, c, d, f, g, i, j, hh2⟩ := hh2
+          have hsl : pmtSectionLength p.payload = decInt true (((p.payload.drop (1 + ptr)).drop 1).take 2) % 4096 := by
+            simp only [pmtSectionLength, hptr]
+          simp only [hh2]
+          intro h
+          refine ⟨h13, ?_⟩
+          rw [hsl]
+          generalize decInt true (((p.payload.drop (1 + ptr)).drop 1).take 2) % 4096 = len at h ⊢
+          revert h
+          repeat' split
+          all_goals first
+            | (rename_i hcrc; intro _
+               simp only [slice_length, Acra.Gen.PMT.PMT_FMT, Acra.Gen.PMT.PMT_FMT_POINTER, Fmt.size, codesSize, Code.size,
+                 Acra.Gen.PMT.PMT_HDR_LEN_NOT_INCL_IN_LEN, Acra.Gen.PMT.PMT_CRC_LEN] at hcrc
+               omega)
+            | (intro h; simp at h; done)
+            | (rename_i e he; intro h; simp only [Except.error.injEq] at h; subst h
+               first
+                 | (have := structUnpackFrom_error _ _ _ _ he; cases this)
+                 | (have := structUnpack_error _ _ _ he; cases this)
+                 | (obtain ⟨r, hr⟩ := decStreams_total _ _ (Nat.lt_succ_self _); rw [hr] at he; cases he)
+                 | (split at he
+                    · have := decDescs_error_struct _ _ _ (by omega) he; cases this
+                    · simp at he))
+        · have hh2 : structUnpackFrom Acra.Gen.PMT.PMT_FMT p.payload (Acra.Gen.PMT.PMT_FMT_POINTER.size + ptr) = .error .struct := by
+            simp only [structUnpackFrom, Acra.Gen.PMT.PMT_FMT, Acra.Gen.PMT.PMT_FMT_POINTER, Fmt.size, codesSize, Code.size]
+            have : ¬ 1 + 0 + ptr + (1 + (2 + (2 + (1 + (1 + (1 + (2 + (2 + 0)))))))) ≤ p.payload.length := by omega
+            simp only [this, if_false]
+          simp [hh2]
+      · have hh1 : structUnpackFrom Acra.Gen.PMT.PMT_FMT_POINTER p.payload 0 = .error .struct := by
+          simp only [structUnpackFrom, Acra.Gen.PMT.PMT_FMT_POINTER, Fmt.size, codesSize, Code.size]
+          have : ¬ 0 + (1 + 0) ≤ p.payload.length := by omega
+          simp only [this, if_false]
+        simp [hh1]
+
+/-- every outcome is reachable: `wPMT` → True; one CRC byte changed → False; 3 bytes → `struct.error`; sync byte
+    0x46 → bare `Exception`; section length forced to 1 → `IndexError` -/
+example : (PMT.unpack PMT.fresh (wPMT.take 3)).2 = .error .struct := by rfl
+set_option maxRecDepth 20000 in
+example : (PMT.unpack PMT.fresh (wPMT.set 37 74)).2 = .ok false := by rfl
+set_option maxRecDepth 20000 in
+example : (PMT.unpack PMT.fresh (wPMT.set 0 0x46)).2 = .error .generic := by rfl
+set_option maxRecDepth 20000 in
+example : (PMT.unpack PMT.fresh ((wPMT.set 6 0).set 7 1)).2 = .error .index := by rfl
+
+/-- joint witnesses for the helper lemmas above: a descriptor loop / stream loop that runs into a cut element with enough
+    fuel (`decDescs_error_struct`); the stream loop stops before a cut element (`decStreams_total`); `PMT_unpack_after_pkt`: `wPMT` passes the transport-packet layer -/
+example : ([5, 2, 1, 2, 6] : Bytes).length < 7 ∧ decDescs 7 [5, 2, 1, 2, 6] = .error .struct := ⟨by decide, rfl⟩
+example : ([27, 225, 0, 240, 0, 15, 225, 1, 240] : Bytes).length < 20 ∧
+    decStreams 20 [27, 225, 0, 240, 0, 15, 225, 1, 240] = .ok ([⟨27, 0x100, []⟩], [15, 225, 1, 240]) := ⟨by decide, rfl⟩
+set_option maxRecDepth 20000 in
+example : (Pkt.unpack PMT.fresh.pkt wPMT).2 = .ok () := by rfl
+
 end Acra.Props.C08
